@@ -130,6 +130,25 @@ message M {
 }
 ''', ["message", "field", "default_value", "json_name"], [])
 
+# compact options that are already broken over several lines, one entry's value a message literal followed by `,`
+SKEL["coptml"] = ('''syntax = "proto2";
+import "opts.proto";
+message M {
+  optional int32 a = 1 [
+    default = -5,
+    deprecated = true,
+    json_name = "NAME"
+  ];
+  optional int32 b = 2 [
+    (fldopt) = {
+      leaf: 1
+      names: "a"
+    },
+    (fldnum) = 3
+  ];
+}
+''', ["message", "field", "default_value", "json_name", "custom_option_set"], ["opts.proto"])
+
 SKEL["lit"] = ('''syntax = "proto2";
 import "opts.proto";
 message T {
